@@ -427,7 +427,7 @@ pub fn sample_json(data: &[u8]) -> Value {
 /// the thorough tiers does the same with feedback).
 pub fn mutate_text(text: &mut Vec<u8>, e: &mut Entropy) {
     let n = text.len();
-    match e.pick(9) {
+    match e.pick(10) {
         0 if n > 0 => {
             text.remove(e.pick(n));
         }
@@ -482,6 +482,13 @@ pub fn mutate_text(text: &mut Vec<u8>, e: &mut Entropy) {
                 let at = ws[e.pick(ws.len())];
                 text[at] = if text[at] == b' ' { b'\n' } else { b' ' };
             }
+        }
+        8 => {
+            // a multi-byte character somewhere (tokens whose byte length and character count differ)
+            let at = e.pick(n + 1);
+            let at = (0..=at).rev().find(|&i| std::str::from_utf8(&text[..i]).is_ok()).unwrap_or(0);
+            let ch = ["\u{e9}", "\u{ff12}", "\u{1F600}", "\u{df}"][e.pick(4)];
+            text.splice(at..at, ch.as_bytes().iter().copied());
         }
         7 if n > 3 => {
             // swap two neighbouring tokens' first bytes region: swap two bytes
